@@ -8,10 +8,12 @@ package main
 //   pep440_tables raw                    -> (valid-table sat-table)   (oracle values for the model)
 //   marker        (raw (extra...) ...)   -> ("ok" val tree) | ("err") | ("nondet" a b); 8 repetitions
 //   marker_edge   (raw (extra...))       -> ("edge" 0|1) | ("err") | ("grapherr")
+//   marker_multi  ((root...) ...)        -> one result per root, several guarded edges, one resolver
 
 import (
 	"context"
 	"sort"
+	"strconv"
 	"strings"
 
 	pypimeta "deps.dev/util/pypi"
@@ -245,7 +247,92 @@ func pypiEnv(sx.V) sx.V {
 	return sx.L(out...)
 }
 
+// markerMulti: ((root...) ...), root = ((raw (extra...)) ...). One universe, ONE resolver:
+//   root<j> 1.0 -> mid<j>_<i>[extras_i] -> (marker_i) g<j>_<i>
+// The roots are resolved one after the other on the same resolver, so that anything the
+// resolver remembers about one marker (caches) can leak into another. Result per root:
+// ("err") | ("grapherr") | ("edges" b...), b = presence of the edge mid<j>_<i> -> g<j>_<i>.
+func markerMulti(arg sx.V) sx.V {
+	pk := func(name string) resolve.PackageKey { return resolve.PackageKey{System: resolve.PyPI, Name: name} }
+	conc := func(name string) resolve.Version {
+		return resolve.Version{VersionKey: resolve.VersionKey{PackageKey: pk(name), VersionType: resolve.Concrete, Version: "1.0"}}
+	}
+	req := func(name string, t dep.Type) resolve.RequirementVersion {
+		return resolve.RequirementVersion{
+			VersionKey: resolve.VersionKey{PackageKey: pk(name), VersionType: resolve.Requirement, Version: ""},
+			Type:       t,
+		}
+	}
+	roots := arg.Nth(0).List()
+	lc := resolve.NewLocalClient()
+	for j, root := range roots {
+		var rootReqs []resolve.RequirementVersion
+		for i, item := range root.List() {
+			raw := item.Nth(0).Str()
+			var extras []string
+			for _, e := range item.Nth(1).List() {
+				extras = append(extras, e.Str())
+			}
+			mid := "mid" + strconv.Itoa(j) + "x" + strconv.Itoa(i)
+			g := "g" + strconv.Itoa(j) + "x" + strconv.Itoa(i)
+			var midType, guardType dep.Type
+			if len(extras) > 0 {
+				midType.AddAttr(dep.EnabledDependencies, strings.Join(extras, ","))
+			}
+			guardType.AddAttr(dep.Environment, raw)
+			lc.AddVersion(conc(g), nil)
+			lc.AddVersion(conc(mid), []resolve.RequirementVersion{req(g, guardType)})
+			rootReqs = append(rootReqs, req(mid, midType))
+		}
+		lc.AddVersion(conc("root"+strconv.Itoa(j)), rootReqs)
+	}
+	r := pypires.NewResolver(lc)
+	var out []sx.V
+	for j, root := range roots {
+		g, err := r.Resolve(context.Background(), conc("root"+strconv.Itoa(j)).VersionKey)
+		if err != nil {
+			out = append(out, sx.L(sx.Sym("err")))
+			continue
+		}
+		if g.Error != "" {
+			out = append(out, sx.L(sx.Sym("grapherr")))
+			continue
+		}
+		id := map[string]int{}
+		for k, n := range g.Nodes {
+			id[n.Version.Name] = k
+		}
+		has := map[[2]int]bool{}
+		for _, e := range g.Edges {
+			has[[2]int{int(e.From), int(e.To)}] = true
+		}
+		res := []sx.V{sx.Sym("edges")}
+		bad := false
+		for i := range root.List() {
+			m, okm := id["mid"+strconv.Itoa(j)+"x"+strconv.Itoa(i)]
+			gi, okg := id["g"+strconv.Itoa(j)+"x"+strconv.Itoa(i)]
+			if !okm {
+				bad = true
+				break
+			}
+			present := okg && has[[2]int{m, gi}]
+			if present != okg {
+				bad = true
+				break
+			}
+			res = append(res, sx.Bool(present))
+		}
+		if bad {
+			out = append(out, sx.L(sx.Sym("inconsistent")))
+			continue
+		}
+		out = append(out, sx.L(res...))
+	}
+	return sx.L(out...)
+}
+
 func init() {
+	register("marker_multi", markerMulti)
 	register("pypi_env", pypiEnv)
 	register("pep508", pep508Parse)
 	register("canon_name", canonName)
